@@ -426,7 +426,11 @@ func hmacEquivalent(a, b []byte) bool {
 }
 
 func managerCase(r *evid.Run, rg *rand.Rand, cs int64) {
-	dir, _ := os.MkdirTemp("", "c17")
+	dir, derr := os.MkdirTemp("", "c17")
+	if derr != nil {
+		r.Inconclusive("no scratch directory: " + derr.Error())
+		return
+	}
 	defer os.RemoveAll(dir)
 	db, err := walletdb.Create("bdb", filepath.Join(dir, "w.db"), true, 10*time.Second, false)
 	if err != nil {
